@@ -1562,6 +1562,28 @@ Section ProcLocal.
         assert (E := f_equal (fun z => Z.testbit z b) (Hag i)). simpl in E.
         rewrite !Z.land_spec in E. unfold pmask in E. rewrite Hsh, Hm, !andb_true_r in E. exact E.
   Qed.
+  (* the process of an asynchronous-reset domain: without a clock edge it loads reset values (no read of `next`),
+     with one it is the synchronous process *)
+  Lemma rtl_sync_arst_mask_local n l clk pos rst :
+    Forall (stmt_lhs_ok ss) l -> mask_local (rtl_sync_arst tab n l clk pos rst) (pmask l).
+  Proof.
+    intros Hl. split.
+    - intros lo res cu nx w H. simpl in H. destruct (hd 0 res =? 0).
+      + simpl in H. apply in_flat_map in H. destruct H as (i & _ & H).
+        destruct ((stmts_mask l i =? 0) || sd_reset_less (tab i)); simpl in H; [tauto|].
+        destruct H as [<-|[]]. simpl. apply Z.land_lnot_diag.
+      + simpl in H. apply rtl_writes_mask in H. rewrite H. apply Z.land_lnot_diag.
+    - intros lo res cu nx nx' Hag. simpl. destruct (hd 0 res =? 0); [repeat split; apply weqs_refl|].
+      simpl. repeat split. apply rtl_writes_weqs. intros i.
+      destruct (_ && negb (stmts_mask l i =? 0) && negb (sd_reset_less (tab i))); [reflexivity|].
+      destruct (Hd i) as [Hsh _]. rewrite Hsh.
+      apply masked_result_local.
+      + apply exec_rtl_list_loc; auto. apply Hss'.
+      + apply stmts_mask_bounded; auto. apply Hss'.
+      + intros b Hb Hm. unfold env_of_list.
+        assert (E := f_equal (fun z => Z.testbit z b) (Hag i)). simpl in E.
+        rewrite !Z.land_spec in E. unfold pmask in E. rewrite Hsh, Hm, !andb_true_r in E. exact E.
+  Qed.
 End ProcLocal.
 
 (* processes that write one whole slot and never look at `next`: the clock and the two documented replacement patterns *)
@@ -1598,6 +1620,60 @@ Proof.
   destruct (negb (c =? 0)); simpl in H; [destruct H as [<-|[]]; reflexivity|tauto].
 Qed.
 
+(* processes that never look at `next` and write whole slots out of a fixed set *)
+Definition among (l : list nat) (i : nat) : Z := if existsb (Nat.eqb i) l then -1 else 0.
+
+Lemma mask_local_among pr l :
+  (forall lo res cu nx w, In w (r_writes (p_run pr lo res cu nx)) -> In (w_sig w) l) ->
+  (forall lo res cu nx nx', p_run pr lo res cu nx = p_run pr lo res cu nx') ->
+  mask_local pr (among l).
+Proof.
+  intros Hw Hr. split.
+  - intros lo res cu nx w H. apply Hw in H. unfold among.
+    replace (existsb (Nat.eqb (w_sig w)) l) with true; [apply Z.land_0_r|].
+    symmetry. apply existsb_exists. exists (w_sig w). split; auto. apply Nat.eqb_refl.
+  - intros lo res cu nx nx' _. rewrite (Hr lo res cu nx nx'). repeat split. apply weqs_refl.
+Qed.
+
+Lemma user_gen_mask_local spec binds outs :
+  mask_local (user_gen spec binds outs) (among (map (fun o => fst (fst o)) outs)).
+Proof.
+  apply mask_local_among; [|reflexivity]. intros lo res cu nx w H. simpl in H.
+  apply in_map_iff in H. destruct H as ([o v] & <- & H). apply in_combine_l in H. simpl.
+  apply in_map_iff. exists o. auto.
+Qed.
+
+Lemma mem_comb_mask_local base depth rowsh rports inputs :
+  mask_local (mem_comb base depth rowsh rports inputs) (among (map rp_data rports)).
+Proof.
+  apply mask_local_among; [|reflexivity]. intros lo res cu nx w H. simpl in H.
+  apply in_map_iff in H. destruct H as (rp & <- & H). simpl. apply in_map; auto.
+Qed.
+
+Lemma among_lor l1 l2 i : Z.lor (among l1 i) (among l2 i) = among (l1 ++ l2) i.
+Proof. unfold among. rewrite existsb_app. destruct (existsb _ l1), (existsb _ l2); reflexivity. Qed.
+
+Lemma mem_sync_mask_local base depth rowsh clk pol wports rports :
+  mask_local (mem_sync base depth rowsh clk pol wports rports)
+             (fun i => Z.lor (among (seq base depth) i) (among (map rp_data rports) i)).
+Proof.
+  assert (E : forall pr pm pm', (forall i, pm i = pm' i) -> mask_local pr pm -> mask_local pr pm').
+  { intros pr pm pm' Hx [A B]. split.
+    - intros. rewrite <- Hx. eapply A; eauto.
+    - intros lo res cu nx nx' H. apply B. intros i. rewrite !Hx. apply H. }
+  apply (E _ (among (seq base depth ++ map rp_data rports))); [intros; symmetry; apply among_lor|].
+  apply mask_local_among; [|reflexivity]. intros lo res cu nx w H. cbn [mem_sync p_run r_writes] in H.
+  apply in_app_or in H. apply in_or_app. destruct H as [H|H].
+  - left. apply in_flat_map in H. destruct H as ([[a d] e] & _ & H).
+    destruct ((0 <=? a) && (a <? Z.of_nat depth)) eqn:Ea; [|destruct H].
+    destruct H as [<-|[]]. cbn [w_sig].
+    apply andb_prop in Ea. destruct Ea as [E1 E2]. apply Z.leb_le in E1. apply Z.ltb_lt in E2.
+    apply in_seq. lia.
+  - right. apply in_flat_map in H. destruct H as (rp & Hrp & H).
+    match type of H with context [if ?c then _ else _] => destruct c end; [destruct H|].
+    destruct H as [<-|[]]. cbn [w_sig]. apply in_map; auto.
+Qed.
+
 (* ---------- the general sufficient condition ---------- *)
 Definition no_mask : nat -> Z := fun _ => 0.
 
@@ -1627,7 +1703,11 @@ Inductive cdesc :=
 | CSync (l : list stmt) (clk : nat) (pol : Z) (rst : option nat) (arst : bool)
 | CClock (slot : nat) (phase period : Z)
 | CUComb (out : nat) (sh : shape) (ins : list nat) (f : expr)
-| CUSync (out : nat) (sh : shape) (init : Z) (clk : nat) (pol : bool) (rst : option nat) (ins : list nat) (f : expr).
+| CUSync (out : nat) (sh : shape) (init : Z) (clk : nat) (pol : bool) (rst : option nat) (ins : list nat) (f : expr)
+| CSyncA (l : list stmt) (clk : nat) (pos : bool) (rst : nat)
+| CUGen (spec : list trig) (binds : list nat) (outs : list (nat * shape * expr))
+| CMemComb (base depth : nat) (rowsh : shape) (rports : list rport) (inputs : list nat)
+| CMemSync (base depth : nat) (rowsh : shape) (clk : nat) (pol : Z) (wports : list wport) (rports : list rport).
 
 Definition cproc (tab : sigtab) (n : nat) (d : cdesc) : proc :=
   match d with
@@ -1636,6 +1716,10 @@ Definition cproc (tab : sigtab) (n : nat) (d : cdesc) : proc :=
   | CClock slot phase period => clock_proc slot phase period
   | CUComb out sh ins f => user_comb out sh ins f
   | CUSync out sh init clk pol rst ins f => user_sync out sh init clk pol rst ins f
+  | CSyncA l clk pos rst => rtl_sync_arst tab n l clk pos rst
+  | CUGen spec binds outs => user_gen spec binds outs
+  | CMemComb base depth rowsh rports inputs => mem_comb base depth rowsh rports inputs
+  | CMemSync base depth rowsh clk pol wports rports => mem_sync base depth rowsh clk pol wports rports
   end.
 
 (* the bits a process may write: the LHSMaskCollector masks of a compiled process, the whole clock / output signal otherwise *)
@@ -1646,12 +1730,17 @@ Definition cmask (tab : sigtab) (d : cdesc) : nat -> Z :=
   | CClock slot _ _ => whole slot
   | CUComb out _ _ _ => whole out
   | CUSync out _ _ _ _ _ _ _ => whole out
+  | CSyncA l _ _ _ => pmask tab l
+  | CUGen _ _ outs => among (map (fun o => fst (fst o)) outs)
+  | CMemComb _ _ _ rports _ => among (map rp_data rports)
+  | CMemSync base depth _ _ _ _ rports => fun i => Z.lor (among (seq base depth) i) (among (map rp_data rports) i)
   end.
 
 Definition cdesc_ok (ss : nat -> shape) (d : cdesc) : Prop :=
   match d with
   | CComb l _ => Forall (stmt_lhs_ok ss) l
   | CSync l _ _ _ _ => Forall (stmt_lhs_ok ss) l
+  | CSyncA l _ _ _ => Forall (stmt_lhs_ok ss) l
   | _ => True
   end.
 
@@ -1668,6 +1757,10 @@ Proof.
   - apply clock_mask_local.
   - apply user_comb_mask_local.
   - apply user_sync_mask_local.
+  - apply (rtl_sync_arst_mask_local ss tab Hd); auto.
+  - apply user_gen_mask_local.
+  - apply mem_comb_mask_local.
+  - apply mem_sync_mask_local.
 Qed.
 
 Theorem run_order_independent_compiled ss tab n ds orc orc' sfuel tfuel t_end fuel st :
@@ -2009,3 +2102,84 @@ Definition ex_tb_st : estate :=
     [[OGet 0; OSet 0 (Sh 4 false) 5; OGet 1];
      [OGet 0; OGet 1; OSet 0 (Sh 4 false) 9];
      [OGet 0; OGet 1]].
+
+(* ================================================================ audit follow-up: commit flag, units, async reset, memories *)
+(* `converged` is false exactly when SOME committed slot / memory row changed: the flag is the OR over everything
+   that was pending, whatever the order and whichever member comes last *)
+Definition dirty (st : estate) (i : nat) : bool :=
+  match nth_error (e_slots st) i with Some s => sp s && negb (sc s =? sn s) | None => false end.
+
+Lemma commit_flag_is_or ps o : forall st ch,
+  snd (fold_left (commit_slot ps) o (st, ch)) = ch || existsb (dirty st) o.
+Proof.
+  induction o as [|i o IH]; intros st ch; cbn [fold_left existsb]; [rewrite orb_false_r; reflexivity|].
+  destruct (dirty st i) eqn:Di.
+  - assert (E : snd (commit_slot ps (st, ch) i) = true).
+    { unfold commit_slot, dirty in *. destruct (nth_error (e_slots st) i); [|discriminate]. rewrite Di. reflexivity. }
+    destruct (commit_slot ps (st, ch) i) as [st1 c1]. simpl in E. subst c1.
+    rewrite fold_commit_true. rewrite orb_true_r. reflexivity.
+  - assert (E : commit_slot ps (st, ch) i = (st, ch)).
+    { unfold commit_slot, dirty in *. destruct (nth_error (e_slots st) i); [|reflexivity]. rewrite Di. reflexivity. }
+    rewrite E, IH. reflexivity.
+Qed.
+
+(* Period(unit=value): time units are exact multiples; frequencies round to the nearest femtosecond (ties to even) *)
+Lemma round_half_even_nearest n d : 0 < d -> 2 * Z.abs (n - round_half_even n d * d) <= d.
+Proof.
+  intros Hd. unfold round_half_even.
+  pose proof (Z.div_mod n d ltac:(lia)) as E. pose proof (Z.mod_pos_bound n d Hd) as B.
+  destruct (2 * (n mod d) <? d) eqn:A; [|destruct (d <? 2 * (n mod d)) eqn:A2; [|destruct (Z.even (n / d))]]; nia.
+Qed.
+
+Lemma period_fs_time_units v :
+  period_fs 0 v = v * 10 ^ 15 /\ period_fs 1 v = v * 10 ^ 12 /\ period_fs 2 v = v * 10 ^ 9 /\
+  period_fs 3 v = v * 10 ^ 6 /\ period_fs 4 v = v * 10 ^ 3 /\ period_fs 5 v = v.
+Proof. repeat split; reflexivity. Qed.
+
+Lemma period_fs_frequency v : 0 < v ->
+  2 * Z.abs (10 ^ 15 - period_fs 6 v * v) <= v /\ 2 * Z.abs (10 ^ 12 - period_fs 7 v * v) <= v /\
+  2 * Z.abs (10 ^ 9 - period_fs 8 v * v) <= v /\ 2 * Z.abs (10 ^ 6 - period_fs 9 v * v) <= v.
+Proof. intros H. repeat split; apply (round_half_even_nearest _ v H). Qed.
+
+(* ctx.tick() result layout is the same for both reset styles: clock hit, then two reset indications, then the samples *)
+Lemma tick_spec_layout d samples :
+  exists t1 t2, tick_spec d samples = TEdge (dd_clk d) 0 (dd_pos d) :: t1 :: t2 :: map TSample samples /\
+  (dd_async d = true -> forall r, dd_rst d = Some r -> t1 = TEdge r 0 true /\ t2 = TSample r) /\
+  (dd_async d = false -> t1 = TConst 0).
+Proof.
+  unfold tick_spec. destruct (dd_async d), (dd_rst d) as [r|]; do 2 eexists; split; try reflexivity;
+    split; intros; try discriminate; auto. injection H0 as <-. auto.
+Qed.
+
+(* asynchronous reset after the repair of F7: woken without a clock edge, the process only loads the reset values of
+   the resettable signals it drives: no statement runs, reset-less signals and everything else keep their value *)
+Lemma arst_reset_only tab n l clk pos rst lo res cu nx :
+  hd 0 res = 0 ->
+  forall w, In w (r_writes (p_run (rtl_sync_arst tab n l clk pos rst) lo res cu nx)) ->
+    w_val w = sd_init (tab (w_sig w)) /\ sd_reset_less (tab (w_sig w)) = false /\ stmts_mask l (w_sig w) <> 0.
+Proof.
+  intros H w Hw. simpl in Hw. rewrite H in Hw. simpl in Hw.
+  apply in_flat_map in Hw. destruct Hw as (i & _ & Hw).
+  destruct (stmts_mask l i =? 0) eqn:E1; [destruct Hw|]. destruct (sd_reset_less (tab i)) eqn:E2; [destruct Hw|].
+  destruct Hw as [<-|[]]. simpl. apply Z.eqb_neq in E1. auto.
+Qed.
+
+Lemma arst_clock_edge_is_sync tab n l clk pos rst lo res cu nx :
+  hd 0 res <> 0 ->
+  r_writes (p_run (rtl_sync_arst tab n l clk pos rst) lo res cu nx) =
+  r_writes (p_run (rtl_sync tab n l clk (b2z pos) (Some rst) true) lo [] cu nx).
+Proof. intros H. simpl. apply Z.eqb_neq in H. rewrite H. reflexivity. Qed.
+
+(* a memory with two write ports of one domain writing different rows, a comb read port watching the first row:
+   the delta that commits the rows reports "not converged" although the row committed last does not change, and the
+   next delta refreshes the read data *)
+Definition exm_sigs : list Z := [0; 1; 9; 1; 2; 7; 1; 1; 0; 3; 5; 7].
+(* slots: 0 clk | 1 w0.addr 2 w0.data 3 w0.en | 4 w1.addr 5 w1.data 6 w1.en | 7 r.addr 8 r.data | rows 9 10 11 *)
+Definition exm_ps : list proc :=
+  [mem_comb 9 3 (Sh 4 false) [RP (ESig 7 (Sh 2 false)) (EConst 1 (Sh 1 false)) 8 []] [7%nat];
+   mem_sync 9 3 (Sh 4 false) 0 1
+     [WP (ESig 1 (Sh 2 false)) (ESig 2 (Sh 4 false)) (ECat [ESig 3 (Sh 1 false); ESig 3 (Sh 1 false); ESig 3 (Sh 1 false); ESig 3 (Sh 1 false)]);
+      WP (ESig 4 (Sh 2 false)) (ESig 5 (Sh 4 false)) (ECat [ESig 6 (Sh 1 false); ESig 6 (Sh 1 false); ESig 6 (Sh 1 false); ESig 6 (Sh 1 false)])]
+     []].
+Definition exm_st : estate :=
+  init_state exm_sigs [rtl_pstate true; rtl_pstate false] [[OSet 0 (Sh 1 false) 1; OGet 8; OGet 10; OGet 11]].
